@@ -12,17 +12,37 @@ import tempfile
 RT = "rzilcompiler/Transformer/RZILTransformer.py"
 VT = "rzilcompiler/Transformer/ValueType.py"
 M = [
-    ("c04_ge", "C04", VT, "    if unsigned.bit_width >= signed.bit_width:", "    if unsigned.bit_width > signed.bit_width:"),
     ("c04_promo16", "C04", VT, "    if pure_type.bit_width >= 32:\n        return pure_type", "    if pure_type.bit_width >= 16:\n        return pure_type"),
-    ("c04_alias", "C04", VT, "    va = deepcopy(a)\n    vb = deepcopy(b)\n\n    if sign_match:", "    va = a\n    vb = deepcopy(b)\n\n    if sign_match:"),
-    ("c02_cmp_sl", "C02", "rzilcompiler/Transformer/Pures/CompareOp.py", "            if (self.ops[0].value_type.signed or self.ops[1].value_type.signed)", "            if (self.ops[0].value_type.signed)"),
-    ("c02_add_nopromo", "C02", RT, "        if op_type != ArithmeticType.MOD:\n            # Modular operations don't need matching types.\n            a = self.promotion_cast(a)\n            b = self.promotion_cast(b)\n            a, b = self.cast_operands(a=a, b=b, immutable_a=False)\n        return self.add_op(ArithmeticOp(name, a, b, op_type))",
-     "        if op_type != ArithmeticType.MOD:\n            # Modular operations don't need matching types.\n            a, b = self.cast_operands(a=a, b=b, immutable_a=False)\n        return self.add_op(ArithmeticOp(name, a, b, op_type))"),
+    ("c04_mutate_arg", "C04", VT, "    va = deepcopy(a)\n    vb = deepcopy(b)\n\n    if sign_match:", "    va = deepcopy(a)\n    vb = deepcopy(b) if a.bit_width != 128 else b\n\n    if sign_match:"),
+    ("c02_add_nopromo", "C02", RT, "        a = self.promotion_cast(a)\n        b = self.promotion_cast(b)\n        a, b = self.cast_operands(a=a, b=b, immutable_a=False)\n        return self.add_op(ArithmeticOp(name, a, b, op_type))",
+     "        a, b = self.cast_operands(a=a, b=b, immutable_a=False)\n        return self.add_op(ArithmeticOp(name, a, b, op_type))"),
     ("c02_shr_logical64", "C02", "rzilcompiler/Transformer/Pures/BitOp.py", "            if self.ops[0].value_type.signed:", "            if self.ops[0].value_type.signed and self.ops[0].value_type.bit_width < 64:"),
-    ("c02_ne_noinv", "C02", "rzilcompiler/Transformer/Pures/CompareOp.py", 'code = f"INV(EQ({self.ops[0].il_read()}, {self.ops[1].il_read()}))"', 'code = f"INV(EQ({self.ops[0].il_read()}, {self.ops[1].il_read()}))" if self.ops[0].value_type.bit_width != 16 else f"EQ({self.ops[0].il_read()}, {self.ops[1].il_read()})"'),
-    ("c03_fill_target", "C03", "rzilcompiler/Transformer/Pures/Cast.py", "        if self.value_type.signed and self.ops[0].value_type.signed:", "        if self.value_type.signed:"),
+    ("c02_ne_noinv64", "C02", "rzilcompiler/Transformer/Pures/CompareOp.py", 'code = f"INV(EQ({self.ops[0].il_read()}, {self.ops[1].il_read()}))"', 'code = f"INV(EQ({self.ops[0].il_read()}, {self.ops[1].il_read()}))" if self.ops[0].value_type.bit_width != 64 else f"EQ({self.ops[0].il_read()}, {self.ops[1].il_read()})"'),
+    ("c02_cmp_unsigned_le", "C02", "rzilcompiler/Transformer/Pures/CompareOp.py", '            code = f"{sl}LE({self.ops[0].il_read()}, {self.ops[1].il_read()})"', '            code = f"ULE({self.ops[0].il_read()}, {self.ops[1].il_read()})" if self.ops[0].value_type.bit_width == 64 else f"{sl}LE({self.ops[0].il_read()}, {self.ops[1].il_read()})"'),
     ("c03_fill_never16", "C03", "rzilcompiler/Transformer/Pures/Cast.py", "        if self.value_type.signed and self.ops[0].value_type.signed:", "        if self.value_type.signed and self.ops[0].value_type.signed and self.ops[0].value_type.bit_width != 16:"),
     ("c03_elide_cast", "C03", RT, "        if target_type == pure.value_type:\n            return pure\n        if not cast_name:", "        if target_type.bit_width == pure.value_type.bit_width and target_type.bit_width == 8:\n            return pure\n        if target_type == pure.value_type:\n            return pure\n        if not cast_name:"),
+    ("c03_ret_signed", "C03", "rzilcompiler/Transformer/Hybrids/SubRoutine.py", '        tmp = "SIGNED(" if self.value_type.signed else "UNSIGNED("\n        tmp += (\n            f"{self.value_type.bit_width}" if self.value_type.bit_width != 0 else "32"\n        )\n        return f\'{tmp}, VARL("ret_val"))\'\n\n\nclass SubRoutineCall',
+     '        tmp = "SIGNED(" if self.value_type.signed or self.value_type.bit_width == 16 else "UNSIGNED("\n        tmp += (\n            f"{self.value_type.bit_width}" if self.value_type.bit_width != 0 else "32"\n        )\n        return f\'{tmp}, VARL("ret_val"))\'\n\n\nclass SubRoutineCall'),
+    ("c05_for_step_first", "C05", RT, 'self.add_op(Sequence(f"seq", flatten_list(items[4]) + [items[3]])),', 'self.add_op(Sequence(f"seq", [items[3]] + flatten_list(items[4]))),'),
+    ("c05_else_dropped_when_nested", "C05", RT, '            else_seq = self.chk_hybrid_dep(\n                self.add_op(Sequence(f"seq_else", flatten_list(items[4])))\n            )', '            else_seq = self.chk_hybrid_dep(\n                self.add_op(Sequence(f"seq_else", flatten_list(items[4])[:3]))\n            )'),
+    ("c06_postfix_order", "C06", RT, "        if hybrid.seq_order == HybridSeqOrder.SET_VAL_THEN_EXEC:\n            h_seq = [set_tmp, hybrid]", "        if hybrid.seq_order == HybridSeqOrder.SET_VAL_THEN_EXEC:\n            h_seq = [hybrid, set_tmp] if hybrid.value_type.bit_width == 64 else [set_tmp, hybrid]"),
+    ("c06_loop_hybrid_order", "C06", RT, "            HybridSeqOrder.SEQ_THEN_HYB,\n        )", "            HybridSeqOrder.HYB_THEN_SEQ,\n        )"),
+    ("c07_pair_max", "C07", "rzilcompiler/Transformer/Pures/Register.py", "            num = min(num, int(n)) if num else int(n)", "            num = max(num, int(n)) if num else int(n)"),
+    ("c07_imm_u_signed", "C07", VT, '    if re.search(r"[rRsS]", imm_char):', '    if re.search(r"[rRsSm]", imm_char):'),
+    ("c07_alias64", "C07", "rzilcompiler/HexagonExtensions.py", '        if alias == "upcycle" or alias == "pktcount" or alias == "utimer":', '        if alias == "upcycle" or alias == "pktcount":'),
+    ("c08_arg_cast_skipped", "C08", RT, "            if arg.value_type == p_type:\n                continue\n", "            if arg.value_type == p_type or arg.value_type.bit_width == p_type.bit_width:\n                continue\n"),
+    ("c09_fold_sub_swapped", "C09", RT, '            case "-":\n                result = val_a - val_b', '            case "-":\n                result = val_a - val_b if val_a >= val_b else val_b - val_a'),
+    ("c10_seqn_count", "C10", "rzilcompiler/Transformer/Effects/Sequence.py", "        return f'SEQN({len(self.effects)}, ", "        return f'SEQN({len(self.effects) if len(self.effects) != 7 else 6}, "),
+    ("c11_getter_case", "C11", "rzilcompiler/Compiler.py", '            name = f"hex_il_op_{insn_name.lower()}"', '            name = f"hex_il_op_{insn_name.lower()[:18]}"'),
+    ("c12_reads_gt2", "C12", "rzilcompiler/Transformer/Pures/PureExec.py", "        if self.reads > 1:\n            return f\"DUP({self.pure_var()})\"", "        if self.reads > 1 and not (self.reads == 2 and len(self.ops) == 3):\n            return f\"DUP({self.pure_var()})\""),
+    ("c13_cond_else_only", "C13", "rzilcompiler/HexagonExtensions.py", '        elif token == "jump":\n            self.set_branches()', '        elif token == "jump":\n            self.set_branches()\n            self.is_conditional = False'),
+    ("c14_hybrids_not_cleared", "C14", RT, "        self.ext.reset_flags()\n        self.il_ops_holder.hybrid_effect_dict.clear()\n", "        self.ext.reset_flags()\n"),
+    ("c15_continue_ok", "C15", RT, '            "GOTO",\n            "CONTINUE",\n            "BREAK",', '            "GOTO",\n            "BREAK",'),
+    ("c16_exec_skips_ternary", "C16", RT, "        for op in holder.exec_ops.values():\n            if isinstance(op, Hybrid):\n                continue", "        for op in holder.exec_ops.values():\n            if isinstance(op, Hybrid) or (isinstance(op, Ternary) and len(holder.exec_ops) > 12):\n                continue"),
+    ("c18_unordered", "C18", "rzilcompiler/Parser.py", "pool.imap(parse_single, args), total=len(args)", "pool.imap_unordered(parse_single, args), total=len(args)"),
+    ("c18_partial_asts", "C18", "rzilcompiler/Parser.py", "        pinsn = ParsedInsn(name, [], behaviors, ParserException(e))", "        pinsn = ParsedInsn(name, asts, behaviors, ParserException(e))"),
+    ("c19_nongreedy", "C19", "rzilcompiler/Preprocessor/Hexagon/PreprocessorHexagon.py", '(\\w+), (.+)\\)$", line, re.ASCII)', '(\\w+), (.+?)\\)$", line)'),
+    ("c20_patch_dups", "C20", "rzilcompiler/Preprocessor/Hexagon/PreprocessorHexagon.py", "            if m_name in succ_patched:\n                # Patched macro already added. Continue.\n                continue\n            elif", "            if False:\n                continue\n            elif"),
 ]
 
 
